@@ -197,11 +197,13 @@ impl<'c> LGen<'c> {
             Ty::Rec(i, _) => {
                 let name = self.prog.decls[*i].name().to_string();
                 let fs = self.fields_of(t);
-                let vals = fs.iter().map(|(n, ft)| (n.clone(), self.build(ft, shape, replay))).collect();
+                let mut vals: Vec<(String, Expr)> = fs.iter().map(|(n, ft)| (n.clone(), self.build(ft, shape, replay))).collect();
+                self.maybe_shuffle(&mut vals);
                 Expr::Record(Some(name), vals)
             }
             Ty::Anon(fs) => {
-                let vals = fs.iter().map(|(n, ft)| (n.clone(), self.build(ft, shape, replay))).collect();
+                let mut vals: Vec<(String, Expr)> = fs.iter().map(|(n, ft)| (n.clone(), self.build(ft, shape, replay))).collect();
+                self.maybe_shuffle(&mut vals);
                 Expr::Record(None, vals)
             }
             Ty::Enum(..) | Ty::Opt(_) => {
@@ -224,6 +226,16 @@ impl<'c> LGen<'c> {
                 Expr::Ctor(path, vn, args)
             }
             _ => self.leaf(t),
+        }
+    }
+
+    /// record literals may list their fields in any order
+    fn maybe_shuffle(&mut self, vals: &mut Vec<(String, Expr)>) {
+        if vals.len() >= 2 && self.c.chance(110) {
+            for i in (1..vals.len()).rev() {
+                let j = self.c.below(i + 1);
+                vals.swap(i, j);
+            }
         }
     }
 
@@ -311,7 +323,7 @@ impl<'c> LGen<'c> {
             };
             stmts.push(Stmt::Expr(Expr::Assign(Place { var: "w".into(), fields: p }, Box::new(val))));
         }
-        let mut routes: Vec<u32> = (0..9).collect();
+        let mut routes: Vec<u32> = (0..10).collect();
         // a random subset / order of the observation routes
         for i in (1..routes.len()).rev() {
             let j = self.c.below(i + 1);
@@ -379,6 +391,25 @@ impl<'c> LGen<'c> {
                         Expr::Record(None, vec![("p".into(), Expr::Var("v".into())), ("k".into(), k), ("q".into(), Expr::Var("v2".into()))]),
                     ));
                     self.dump(Expr::Var(p), &pt, &mut stmts);
+                }
+                9 => {
+                    // two un-annotated anonymous records with the same fields written in different orders
+                    // meet in an assignment and in a comparison
+                    let (p, q) = (self.fresh("p"), self.fresh("q"));
+                    let k1 = self.lit(&Ty::Int(IntTy::U8));
+                    let k2 = self.lit(&Ty::Int(IntTy::U8));
+                    let w1 = self.lit(&Ty::Int(IntTy::U64));
+                    let w2 = self.lit(&Ty::Int(IntTy::U64));
+                    stmts.push(Stmt::Let(p.clone(), None, Expr::Record(None, vec![("k".into(), k1), ("val".into(), Expr::Var("v".into())), ("w".into(), w1)])));
+                    stmts.push(Stmt::Let(q.clone(), None, Expr::Record(None, vec![("w".into(), w2), ("val".into(), Expr::Var("v2".into())), ("k".into(), k2)])));
+                    let pt = Ty::Anon(vec![("k".into(), Ty::Int(IntTy::U8)), ("val".into(), t.clone()), ("w".into(), Ty::Int(IntTy::U64))]);
+                    let ob = if self.value_returning_outs { "ov_bool" } else { "out_bool" };
+                    let eq = Expr::Bin(BinOp::Eq, Box::new(Expr::Var(p.clone())), Box::new(Expr::Var(q.clone())));
+                    stmts.push(Stmt::Expr(Expr::Host(ob.into(), vec![eq])));
+                    self.dump(Expr::Var(p.clone()), &pt, &mut stmts);
+                    stmts.push(Stmt::Expr(Expr::Assign(Place { var: p.clone(), fields: vec![] }, Box::new(Expr::Var(q.clone())))));
+                    self.dump(Expr::Var(p), &pt, &mut stmts);
+                    self.dump(Expr::Var(q), &pt, &mut stmts);
                 }
                 _ => {
                     // whole-value assignment is a copy too
